@@ -10,6 +10,7 @@ static inline SetSizes parse_set_sizes(const Ctx &ctx, int scale /*0 = lighter (
     if (ctx.secondary) { z.k = 0; z.L = 4; z.ip_groups3 = 5; z.ip_groups4 = 3; z.fut_len = 4; z.octets = false; return z; }
     if (ctx.quick()) { z.k = scale ? 1 : 0; z.L = scale ? 6 : 5; z.ip_groups3 = 8; z.ip_groups4 = 5; z.fut_len = 5; z.octets = true; }
     else { z.k = scale ? 2 : 1; z.L = scale ? 7 : 6; z.ip_groups3 = 9; z.ip_groups4 = 7; z.fut_len = 6; z.octets = true; }
+    z.L += ctx.bonus; z.fut_len += ctx.bonus;
     return z;
 }
 
